@@ -421,3 +421,30 @@ Example select_example :
                  e_laz := [{| c_imp := 200%Q; c_inf := (1#10)%Q; c_dc := None |}];
                  e_enum := [{| c_imp := 1%Q; c_inf := 0%Q; c_dc := None |}] |}) = OChosen S4_all_inf_idx FEnum 0.
 Proof. vm_compute. reflexivity. Qed.
+
+(* ---------- score post-processing ---------- *)
+From Coq Require Import Qround Lqa.
+
+(* numpy.round as modelled: the nearest integer, a tie goes to the even neighbour *)
+Theorem round_half_even_spec q :
+  let z := round_half_even q in
+  (inject_Z z - (1#2) <= q <= inject_Z z + (1#2))%Q /\
+  ((q == inject_Z z + (1#2))%Q \/ (q == inject_Z z - (1#2))%Q -> Z.even z = true).
+Proof.
+  unfold round_half_even.
+  pose proof (Qfloor_le q) as Hlo. pose proof (Qlt_floor q) as Hhi.
+  set (f := Qfloor q) in *.
+  assert (Hf1 : (inject_Z (f + 1) == inject_Z f + 1)%Q) by (rewrite inject_Z_plus; reflexivity).
+  rewrite Hf1 in Hhi.
+  destruct (Qlt_bool (q - inject_Z f) (1 # 2)) eqn:E1.
+  - apply Qlt_bool_iff in E1. split; [split; lra|]. intros [H|H]; lra.
+  - apply Qlt_bool_false in E1. destruct (Qlt_bool (1 # 2) (q - inject_Z f)) eqn:E2.
+    + apply Qlt_bool_iff in E2. rewrite Hf1. split; [split; lra|]. intros [H|H]; lra.
+    + apply Qlt_bool_false in E2. destruct (Z.even f) eqn:Ev.
+      * split; [split; lra|]. intros _. exact Ev.
+      * rewrite Hf1. split; [split; lra|]. intros _.
+        rewrite Z.even_add. rewrite Ev. reflexivity.
+Qed.
+
+Lemma equalize_keeps_scores t : map c_imp (equalize t) = map c_imp t /\ map c_inf (equalize t) = map c_inf t.
+Proof. unfold equalize. rewrite !map_map. split; apply map_ext; intros a; reflexivity. Qed.
